@@ -358,7 +358,9 @@ class PageBreakCalculator(BaseModel):
                         header_text, total_width, font_size=int(font_size)
                     )  # type: ignore
 
-            total_rows = max_lines_in_row + pageby_rows + subline_rows
+            # The subline_by header is reserved on every page via
+            # additional_rows_per_page, so it is not charged to the row again.
+            total_rows = max_lines_in_row + pageby_rows
 
             row_metadata_list.append(
                 {
